@@ -349,11 +349,13 @@ impl Prop for P {
                 workers: 8,
                 cases_per_worker: 60,
                 timeout_s: 1800,
+                max_shrink_iters: 300,
             },
             Tier::Thorough => Plan {
                 workers: 16,
                 cases_per_worker: 1500,
                 timeout_s: 10800,
+                max_shrink_iters: 300,
             },
         }
     }
